@@ -137,7 +137,9 @@ def gen_cases(ctx):
             g = 256
         waves = rng.choice([0.0, 0.0, 0.05, 0.25, 0.5, 1.0, 2.0, 5.0, 10.0, 20.0, 40.0]) * rng.choice([1, -1])
         case = {'kind': 'psf', 'lens': lens, 'family': fam, 'solve': solve, 'n': n, 'g': g,
-                'Hy': rng.choice([0.0, 0.0, 0.7, 1.0]), 'wi': rng.randint(0, 2), 'defocus_waves': waves}
+                'Hy': rng.choice([0.0, 0.0, 0.7, 1.0]), 'wi': rng.randint(0, 2), 'defocus_waves': waves,
+                'view_first': rng.random() < 0.4, 'projection': rng.choice(['2d', '2d', '3d']),
+                'log': rng.random() < 0.3}
         if not finalize_case(ctx, case):
             continue
         cases.append(case)
@@ -396,6 +398,15 @@ def run_psf_impl(ctx, case):
     if not (np.array_equal(pw, w) and np.array_equal(pi, inten)):
         ctx.fail('FFTPSF uses the wavefront of the same field / wavelength / sampling', case,
                  'FFTPSF.data differs from Wavefront(...).data', None)
+    if case.get('view_first'):
+        # the PSF is drawn before it is read: drawing must not change the stored array
+        import matplotlib.pyplot as plt
+        try:
+            p.view(projection=case.get('projection', '2d'), log=bool(case.get('log')), num_points=16)
+        except Exception as e:  # noqa
+            ctx.count('psf view() raised ' + type(e).__name__)
+        plt.close('all')
+        ctx.count('psf read after view()')
     rec['psf'] = np.array(p.psf, dtype=float)
     rec['strehl'] = float(p.strehl_ratio())
     if not case.get('big'):
